@@ -299,3 +299,63 @@ def write_ndjson(path: str, rows: Iterable[Any]):
 def read_ndjson(path: str) -> List[Any]:
     with open(path) as f:
         return [json.loads(l) for l in f if l.strip()]
+
+
+@dataclass
+class ShardResult:
+    verdicts: List[List[Any]]
+    ok_ids: List[int]
+    distinct: int
+    generated: int
+    cmd: str
+    coverage: Dict[str, int]
+
+
+def _run_shard(args):
+    module, path, extra_env, cfg = args
+    env = {"VERIF_TRACES": path}
+    env.update(extra_env or {})
+    r = run_tlc(module, cfg=cfg, env=env, workers=1, heap="3g")
+    ok = []
+    for p in r.prints:
+        if p.startswith('<<"OK"'):
+            ok.append(parse_tla(p)[1])
+    return r.verdicts, ok, r.distinct, r.generated, r.cmd, r.violated, r.out[-1500:]
+
+
+def run_tlc_sharded(module: str, rows: List[Dict[str, Any]], tmp: str, shards: int = 8, tag: str = "t",
+                    env: Optional[Dict[str, str]] = None, cfg: Optional[str] = None) -> ShardResult:
+    """Validate trace records with several single-worker TLC processes in parallel
+    (a big JSON constant makes multi-worker TLC slower, not faster).  Record ids
+    are renumbered per shard and mapped back."""
+    from concurrent.futures import ThreadPoolExecutor
+    shards = max(1, min(shards, len(rows)))
+    jobs, maps = [], []
+    for s in range(shards):
+        part = rows[s::shards]
+        idmap = {}
+        out = []
+        for n, row in enumerate(part, start=1):
+            idmap[n] = row["id"]
+            rr = dict(row)
+            rr["id"] = n
+            out.append(rr)
+        path = f"{tmp}/{tag}_{s}.ndjson"
+        write_ndjson(path, out)
+        jobs.append((module, path, env, cfg))
+        maps.append(idmap)
+    with ThreadPoolExecutor(max_workers=shards) as pool:
+        results = list(pool.map(_run_shard, jobs))
+    verdicts, ok, distinct, generated, cmd = [], [], 0, 0, ""
+    for (v, o, d, g, c, violated, tail), idmap in zip(results, maps):
+        if violated:
+            raise MachineryError(f"{module}: invariant of the trace specification itself violated: {violated}\n{tail}")
+        for x in v:
+            x = list(x)
+            x[2] = idmap[x[2]]
+            verdicts.append(x)
+        ok += [idmap[i] for i in o]
+        distinct += d
+        generated += g
+        cmd = c
+    return ShardResult(verdicts, ok, distinct, generated, cmd, {})
